@@ -281,6 +281,16 @@ class Interp:
         k = p[0]
         if k == 'local':
             n = p[1]
+            ty = (self._cur_fn.local_tys.get(n, '') if getattr(self, '_cur_fn', None) is not None else '')
+            if re.fullmatch(r'[\w:]+', ty) and ty.split('::')[-1][:1].isupper() and ty.split('::')[-1] not in INT_BITS:
+                # a zero-sized unit struct is never assigned in MIR: materialise it on first use
+                zname = ty.split('::')[-1]
+                def get_zst(ctx, fr):
+                    v = fr[n]
+                    if v is None:
+                        v = fr[n] = Agg(zname, [])
+                    return v
+                return get_zst
             return lambda ctx, fr: fr[n]
         if k == 'deref':
             g = self.c_place_get(p[1])
@@ -374,7 +384,11 @@ class Interp:
         k = p[0]
         if k == 'local':
             n = p[1]
-            return lambda ctx, fr: LocalRef(fr, n)
+            g0 = self.c_place_get(p)
+            def mk_local(ctx, fr):
+                g0(ctx, fr)
+                return LocalRef(fr, n)
+            return mk_local
         if k == 'deref':
             g = self.c_place_get(p[1]); inner = self.c_place_ref(p[1])
             def mk(ctx, fr):
@@ -759,6 +773,7 @@ class Interp:
 
     # ------------------------------------------------------------------ compile: statements
     def compile_fn(self, fn):
+        self._cur_fn = fn
         code = {}
         for bb, stmts in fn.blocks.items():
             if bb in fn.cleanup:
